@@ -29,4 +29,8 @@ def run(tier, seed):
         guarded(chk, 'bounded part relational.run', relational.run, chk, "C04", tier, seed)
     except ImportError:
         chk.notes.append("bounded sign part (relational harness) not built yet")
+    # the assembled matrix must keep its Volterra structure on every assembly path, including the disk cache with histories of
+    # other element lists of the same shape (a stale entry is a matrix for another ordering: non-zero acausal entries)
+    from bounded import cache_faults
+    guarded(chk, 'bounded part cache_faults (matrix paths)', cache_faults.run, chk, tier, seed, "matrix", "C04")
     return chk.finish()
